@@ -177,10 +177,10 @@ theorem C10_no_restart_after_return_or_cancel (lim : Option Nat) (now : Int) (t 
 again and the task ends with the Exception. -/
 example :
     let s := Svc.exec (Svc.init fixedMode (some 1))
-      [.start, .taskStep 0 .cont, .taskStep 0 .cont, .taskStep 0 (.fin .exc), .advance 2000000, .taskStep 0 .cont,
-       .taskStep 0 (.fin .exc)]
+      [.start, .taskStep 0 .cont, .taskStep 0 .cont, .taskStep 0 (.fin .exc), .advance restartDelayUs.toNat,
+       .taskStep 0 .cont, .taskStep 0 (.fin .exc)]
     s.tasks.map (fun t => (t.phase, t.hist)) =
-      [(.done .exc, [.exit 1 .exc 2000000, .enter 1 2000000, .exit 0 .exc 0, .enter 0 0])] := by
+      [(.done .exc, [.exit 1 .exc restartDelayUs, .enter 1 restartDelayUs, .exit 0 .exc 0, .enter 0 0])] := by
   decide
 
 /-! ## never two runs at once -/
